@@ -216,6 +216,20 @@ static void build_catalogue()
 	R("Matrix from an empty list [0]", [] { Matrix M(std::vector<std::vector<double>> {}); return M[0][0]; });
 	A("Vector(0) has size 0", [] { Vector v(0); return (double) v.Size(); });
 	R("Vector(0)[0]", [] { Vector v(0); return v[0]; });
+	// valid tables and matrices at the edge of the double format: abscissae that are neighbouring doubles or a subnormal distance apart are strictly
+	// increasing; a matrix that is regular by one unit in the last place is regular
+	A("Interpolation with abscissae one ulp apart", [] { Interpolation I(std::vector<double> {1.0, 1.0 + 0x1p-52, 2.0, 3.0}, std::vector<double> {1.0, 1.5, 2.0, 1.0}); return I(2.5); });
+	A("Interpolation with abscissae around 2^53", [] { Interpolation I(std::vector<double> {0x1p53, 0x1p53 + 2, 0x1p53 + 4, 0x1p53 + 8}, std::vector<double> {1.0, 1.5, 2.0, 1.0}); return I(0x1p53 + 6); });
+	A("Interpolation with a subnormal first spacing", [] { Interpolation I(std::vector<double> {0.0, 4.9406564584124654e-324, 1.0, 2.0, 3.0}, std::vector<double> {1.0, 1.0, 2.0, 1.0, 0.5}); return I(2.5); });
+	A("Interpolation with spacing 1e-310", [] { Interpolation I(std::vector<double> {-2.0, -1.0, 0.0, 1e-310, 1.0, 2.0}, std::vector<double> {1.0, 1.0, 2.0, 2.0, 0.5, 0.1}); return I(1.5); });
+	A("Interpolation_2D with grid lines one ulp apart", [] {
+		std::vector<double> x = {1.0, 1.0 + 0x1p-52, 2.0}, y = {0.0, 1.0, 2.0};
+		Interpolation_2D I(x, y, std::vector<std::vector<double>>(3, std::vector<double> {1.0, 2.0, 3.0}));
+		return I(1.5, 1.5);
+	});
+	A("Inverse of a matrix that is regular by one ulp", [] { Matrix M(std::vector<std::vector<double>> {{1.0, 1.0}, {1.0, 1.0 + 0x1p-52}}); return msum(M.Inverse()); });
+	A("Inverse of a scaled, row-permuted matrix that is regular by one ulp", [] { Matrix M(std::vector<std::vector<double>> {{3e5, 3e5 * (1.0 + 0x1p-52)}, {3e-7, 3e-7}}); return msum(M.Inverse()); });
+	A("Inverse of a matrix with a subnormal determinant", [] { Matrix M(std::vector<std::vector<double>> {{2e-160, 1e-160}, {1e-160, 3e-160}}); return msum(M.Inverse()); });
 	A("Determinant after Resize(5x5 -> 4x4)", [] { Matrix M = mat(5, 5); for(int i = 0; i < 5; i++) M[i][i] += 9.0; M.Resize(4, 4); return M.Determinant(); });
 	A("Inverse after Resize(5x5 -> 3x3)", [] { Matrix M = mat(5, 5); for(int i = 0; i < 5; i++) M[i][i] += 9.0; M.Resize(3, 3); return msum(M.Inverse()); });
 	A("Vector ops after Resize(3 -> 5)", [] { Vector v(3, 1.0); v.Resize(5); v[4] = 2.0; Vector w(5, 1.0); return (v + w)[4] + v.Dot(w); });
@@ -387,6 +401,12 @@ static void build_catalogue()
 			R("Integrate method '" + m + "'", [=] { return Integrate(f1, 0.0, 1.0, m); });
 			R("Integrate_2D method '" + m + "'", [=] { return Integrate_2D(f2, 0, 1, 0, 1, m); });
 			R("Integrate_3D method '" + m + "'", [=] { return Integrate_3D(f3, 0, 1, 0, 1, 0, 1, m); });
+			// the name is meaningless whatever the limits are - also when a pair of limits coincides (the integral would be zero for a valid name)
+			R("Integrate method '" + m + "' with equal limits", [=] { return Integrate(f1, 0.5, 0.5, m); });
+			R("Integrate_2D method '" + m + "' with x1 == x2", [=] { return Integrate_2D(f2, 0.5, 0.5, 0, 1, m); });
+			R("Integrate_2D method '" + m + "' with y1 == y2", [=] { return Integrate_2D(f2, 0, 1, 0.25, 0.25, m); });
+			R("Integrate_3D method '" + m + "' with x1 == x2", [=] { return Integrate_3D(f3, 1.0, 1.0, 0, 1, 0, 1, m); });
+			R("Integrate_3D method '" + m + "' with z1 == z2", [=] { return Integrate_3D(f3, 0, 1, 0, 1, 2.0, 2.0, m); });
 			R("Integrate_3D spherical method '" + m + "'", [=] { return Integrate_3D(fv, 0.0, 1.0, -1.0, 1.0, 0.0, 1.0, m); });
 			R("Integrate_MC method '" + m + "'", [=] { std::vector<double> reg = {0, 0, 1, 2}; return Integrate_MC(fmc, reg, 2000, m); });
 		}
